@@ -37,7 +37,8 @@ struct symsource_t final : datasource_t
                 std::vector<double> cell;
                 const int           comps = kinds[f] == 'r' ? 1 : kinds[f] == 'S' ? 4 : 0;
                 for (int k = 0; k < comps; ++k)
-                    cell.push_back(sym_box(std::string(stem) + std::to_string(s) + "_" + std::to_string(f) + "_" + std::to_string(k), -8.0, 8.0));
+                    if (stem[0] == '#') cell.push_back(1.5 * static_cast<double>((s * 7 + 3) % 5) - 0.75 * static_cast<double>(f) + 0.25 * static_cast<double>(k * (s + 1)));
+                    else cell.push_back(sym_box(std::string(stem) + std::to_string(s) + "_" + std::to_string(f) + "_" + std::to_string(k), -8.0, 8.0));
                 V[static_cast<size_t>(s)].push_back(cell);
                 int lab = 0;
                 if (kinds[f] == 's') lab = static_cast<int>((s + static_cast<tensor_size_t>(f)) % classes);
